@@ -32,6 +32,16 @@ Harness-only dimensions the Lean model is independent of (all optional keys; abs
                            every helper object (default, factory, converter, validator, hook) EQUAL (`==`) to the real
                            chain's but distinguishable: callbacks are callable objects comparing equal per role and printing
                            a "TWIN." tag, defaults are instances of a str subclass that canonicalise with the tag
+  f["dflt_kind"]           what object a plain default is: "str" (a plain string) | "strsub" | "intsub" | "bytessub" -- instances of
+                           user subclasses of str / int / bytes without a __repr__ of their own; they canonicalise to
+                           `dflt.<name>` only while they are of that exact type
+  f["factory_style"]       "sugar" (`factory=f`) | "Factory" (`default=Factory(f)`) for a factory that does not take self
+  f["cb_odd"]              the field's factory / converter / validator callables are hostile-but-valid callable OBJECTS:
+                           falsy | len0 | boolraises | eqraises | eqany (only where attrs itself accepts them, CB_ODD_OK)
+  cs["post_mode"]          what `__attrs_post_init__` does besides being traced: "swap" re-stores every init field that holds a
+                           plain symbolic string as a NEW equal object, "excinit" calls BaseException.__init__(self, "post.msg")
+                           on exception instances, "both"; the exception `args` observed afterwards name an element
+                           `not-stored:<v>` when it is not the very object the field holds
   call values              tokens of ODD_KINDS decode to objects with unusual __eq__/__ne__/__bool__/__hash__
 """
 from __future__ import annotations
@@ -175,6 +185,8 @@ def _canon(v):
         return v.token
     if v is attr.NOTHING:
         return "NOTHING"
+    if type(v) in _DFLT_TYPES:          # exact type: a plain str/int/bytes of equal value is NOT the declared default
+        return v.canon
     if isinstance(v, TwinStr):
         return "TWIN." + str.__str__(v)
     if isinstance(v, str):
@@ -188,6 +200,21 @@ def _canon(v):
     if isinstance(v, attr.Attribute):
         return "attr." + v.name
     return "other:" + type(v).__name__
+
+
+class DfltStr(str):
+    """a declared default that is an instance of a str SUBCLASS (no __repr__ of its own); `canon` = its protocol spelling"""
+
+
+class DfltInt(int):
+    pass
+
+
+class DfltBytes(bytes):
+    pass
+
+
+_DFLT_TYPES = (DfltStr, DfltInt, DfltBytes)
 
 
 class TwinStr(str):
@@ -308,7 +335,7 @@ def mk_factory(name, takes_self):
     return factory
 
 
-def mk_converter(name, kind, ann, idx=0):
+def mk_converter(name, kind, ann, idx=0, odd=None):
     """kind: plain | c00 | c10 | c01 | c11 (Converter(takes_self, takes_field)); idx: position in a converter chain"""
     ts, tf = (False, False) if kind == "plain" else (kind[1] == "1", kind[2] == "1")
     tag = _TAG[0]
@@ -326,6 +353,8 @@ def mk_converter(name, kind, ann, idx=0):
         fn = conv_a
     else:
         fn = conv
+        if odd and odd in CB_ODD_OK["converter" if kind == "plain" else "Converter"]:
+            fn = CB_ODD[odd](fn)            # a hostile-but-valid callable object around the traced callback
     if kind == "plain":
         return fn
     return attr.Converter(fn, takes_self=ts, takes_field=tf)
@@ -401,6 +430,41 @@ def post(self):
     _event("post", "", 0, [])
 
 
+def _post_swap(self):
+    """re-store every init field that holds a plain symbolic string (not the declared default object) as a NEW, equal
+    object: the canonical observation is unchanged, but whatever was captured from the fields before is now stale"""
+    for a in attr.fields(type(self)):
+        if not a.init:
+            continue
+        try:
+            v = getattr(self, a.name)
+        except AttributeError:
+            continue
+        if type(v) in (str, Fresh) and v is not a.default:
+            object.__setattr__(self, a.name, Fresh(v))
+
+
+def post_swap(self):
+    _event("post", "", 0, [])
+    _post_swap(self)
+
+
+def post_excinit(self):
+    _event("post", "", 0, [])
+    if isinstance(self, BaseException):
+        BaseException.__init__(self, "post.msg")      # the hand-written-exception idiom; attrs sets args afterwards
+
+
+def post_both(self):
+    _event("post", "", 0, [])
+    _post_swap(self)
+    if isinstance(self, BaseException):
+        BaseException.__init__(self, "post.msg")
+
+
+POST_FNS = {None: post, "swap": post_swap, "excinit": post_excinit, "both": post_both}
+
+
 # ------------------------------------------------------------------------------------------ building
 def _on_setattr_arg(kind, name):
     return {
@@ -416,12 +480,102 @@ def _cls_on_setattr_arg(kind):
     }[kind]
 
 
-def _dflt_value(name):
-    """the declared default of field `name`: a string carrying the chain's tag; in the TWIN chain an object that is EQUAL
-    to the real chain's default string but canonicalises with the tag"""
+def _dflt_value(name, kind="str"):
+    """the declared default of field `name`: a string carrying the chain's tag -- or an instance of a str / int / bytes
+    subclass that canonicalises to that string; in the TWIN chain an object that is EQUAL to the real chain's default
+    string but canonicalises with the tag"""
     if _EQ[0] and _TAG[0] == "TWIN.":
         return TwinStr(f"dflt.{name}")
-    return f"{_TAG[0]}dflt.{name}"
+    canon = f"{_TAG[0]}dflt.{name}"
+    if kind == "strsub":
+        v = DfltStr("D/" + name)
+    elif kind == "intsub":
+        v = DfltInt(1000 + sum(map(ord, name)))
+    elif kind == "bytessub":
+        v = DfltBytes(b"D/" + name.encode())
+    else:
+        return canon
+    v.canon = canon
+    return v
+
+
+# ------------------------------------------------------------------------------------------ hostile callables
+class OddCallable:
+    """a factory / converter / validator given as a callable OBJECT with unusual special methods: attrs must call it,
+    never truth-test, measure or compare it"""
+    __slots__ = ("fn",)
+
+    def __init__(self, fn):
+        self.fn = fn
+
+    def __call__(self, *args):
+        return self.fn(*args)
+
+
+class CbFalsy(OddCallable):
+    __slots__ = ()
+
+    def __bool__(self):
+        return False
+
+
+class CbLen0(OddCallable):          # an (empty) pool / registry that is also the factory
+    __slots__ = ()
+
+    def __len__(self):
+        return 0
+
+
+class CbBoolRaises(OddCallable):
+    __slots__ = ()
+
+    def __bool__(self):
+        raise ValueError("truth value of a callback")
+
+
+class CbEqRaises(OddCallable):
+    __slots__ = ()
+
+    def __eq__(self, other):
+        raise OddUse("__eq__")
+
+    def __ne__(self, other):
+        raise OddUse("__ne__")
+
+    __hash__ = None
+
+
+class CbEqAny(OddCallable):
+    __slots__ = ()
+
+    def __eq__(self, other):
+        return True
+
+    def __ne__(self, other):
+        return False
+
+    def __hash__(self):
+        return 0
+
+
+CB_ODD = {"falsy": CbFalsy, "len0": CbLen0, "boolraises": CbBoolRaises, "eqraises": CbEqRaises, "eqany": CbEqAny}
+# where the unchanged attrs accepts such an object and uses it (probed; elsewhere attrib() truth-tests / compares its
+# argument itself -- `if validator and isinstance(...)`, `if converter and ...` -- and a falsy single validator is not
+# run at all, see the C02 report): role -> kinds
+CB_ODD_OK = {
+    "factory": ("falsy", "len0", "boolraises", "eqraises", "eqany"),
+    "converter": ("falsy", "len0", "eqany"),
+    "Converter": ("falsy", "len0", "boolraises", "eqany"),
+    "validator": ("eqraises", "eqany"),
+    "validator_list": ("falsy", "len0", "boolraises", "eqraises", "eqany"),
+}
+
+
+def _odd_cb(f, role, fn):
+    k = f.get("cb_odd")
+    if not k or _EQ[0] or k not in CB_ODD_OK[role]:
+        return fn
+    return CB_ODD[k](fn)
 
 
 def _field_obj(f, next_gen):
@@ -436,11 +590,15 @@ def _field_obj(f, next_gen):
     kw = {}
     d = f["default"]
     if d == "value":
-        kw["default"] = _dflt_value(f["name"])
+        kw["default"] = _dflt_value(f["name"], f.get("dflt_kind", "str"))
     elif d == "factory":
-        kw["factory"] = mk_factory(f["name"], False)
+        fac = _odd_cb(f, "factory", mk_factory(f["name"], False))
+        if f.get("factory_style") == "Factory":
+            kw["default"] = attr.Factory(fac)
+        else:
+            kw["factory"] = fac
     elif d == "factory_self":
-        kw["default"] = attr.Factory(mk_factory(f["name"], True), takes_self=True)
+        kw["default"] = attr.Factory(_odd_cb(f, "factory", mk_factory(f["name"], True)), takes_self=True)
     if not f.get("init", True):
         kw["init"] = False
     if f.get("kw_only"):
@@ -449,10 +607,11 @@ def _field_obj(f, next_gen):
         kw["alias"] = f["alias"]
     if f.get("converter") == "pipe":
         # a converter chain: every member its own traced callback; only the first one's annotation can matter
-        members = [mk_converter(f["name"], k, f.get("conv_type", False) and i == 0, idx=i) for i, k in enumerate(f["pipe"])]
+        members = [mk_converter(f["name"], k, f.get("conv_type", False) and i == 0, idx=i, odd=f.get("cb_odd"))
+                   for i, k in enumerate(f["pipe"])]
         kw["converter"] = members if f.get("pipe_style", "list") == "list" else attr.converters.pipe(*members)
     elif f.get("converter"):
-        kw["converter"] = mk_converter(f["name"], f["converter"], f.get("conv_type", False))
+        kw["converter"] = mk_converter(f["name"], f["converter"], f.get("conv_type", False), odd=f.get("cb_odd"))
     # the field's chain of `validators` callbacks: the first m through the `validator=` argument (a callable, a list,
     # an and_() object, or an and_() object shared with other fields), the rest with `@x.validator`
     nv = f.get("validators", 0)
@@ -460,11 +619,11 @@ def _field_obj(f, next_gen):
     if m >= 1 and f.get("v_shared"):
         kw["validator"] = ctx.shared_validator(f["v_shared"], m)
     elif m >= 1 and f.get("v_and"):
-        kw["validator"] = attr.validators.and_(*[mk_validator(f["name"], i) for i in range(m)])
+        kw["validator"] = attr.validators.and_(*[_odd_cb(f, "validator_list", mk_validator(f["name"], i)) for i in range(m)])
     elif m == 1:
-        kw["validator"] = mk_validator(f["name"], 0)
+        kw["validator"] = _odd_cb(f, "validator", mk_validator(f["name"], 0))
     elif m >= 2:
-        kw["validator"] = [mk_validator(f["name"], i) for i in range(m)]
+        kw["validator"] = [_odd_cb(f, "validator_list", mk_validator(f["name"], i)) for i in range(m)]
     if f.get("on_setattr", "unset") != "unset":
         kw["on_setattr"] = _on_setattr_arg(f["on_setattr"], f["name"])
     if f.get("eq") is False:
@@ -473,9 +632,9 @@ def _field_obj(f, next_gen):
         kw["type"] = TYPES[f["type"]]
     ca = (attrs.field if next_gen else attr.ib)(**kw)
     for i in range(m, nv):
-        ca.validator(mk_validator(f["name"], i))          # `@x.validator`
+        ca.validator(_odd_cb(f, "validator", mk_validator(f["name"], i)))          # `@x.validator`
     if d == "decorator":
-        ca.default(mk_factory(f["name"], True))            # `@x.default`
+        ca.default(_odd_cb(f, "factory", mk_factory(f["name"], True)))            # `@x.default`
     if _TAG[0] == "":
         ctx.cas[f["name"]] = ca
     return ca
@@ -604,7 +763,7 @@ def build_class(cs, base, modname="verif_synth"):
         if cs.get("pre", "none") != "none":
             ns["__attrs_pre_init__"] = pre_noargs if cs["pre"] == "noargs" else pre_args
         if cs.get("post"):
-            ns["__attrs_post_init__"] = post
+            ns["__attrs_post_init__"] = POST_FNS[cs.get("post_mode")]
         ns["__module__"] = modname
         return type(name, (base,), ns)
 
@@ -615,7 +774,7 @@ def build_class(cs, base, modname="verif_synth"):
     if cs.get("pre", "none") != "none":
         ns["__attrs_pre_init__"] = pre_noargs if cs["pre"] == "noargs" else pre_args
     if cs.get("post"):
-        ns["__attrs_post_init__"] = post
+        ns["__attrs_post_init__"] = POST_FNS[cs.get("post_mode")]
     kw = _deco_kwargs(cs)
     if api in ("attr.s", "define", "frozen"):
         anns = {}
@@ -625,7 +784,7 @@ def build_class(cs, base, modname="verif_synth"):
                 # does not collect annotations unless asked to)
                 anns[f["name"]] = TYPES[f["type"]]
                 if f["default"] == "value":
-                    ns[f["name"]] = _dflt_value(f["name"])
+                    ns[f["name"]] = _dflt_value(f["name"], f.get("dflt_kind", "str"))
                 continue
             ns[f["name"]] = _field_obj(f, next_gen)
             if f.get("annotated") and f.get("type"):
@@ -940,7 +1099,19 @@ def construct(hspec, call, fault=None, validators_enabled=True):
         if auto_exc is None:
             auto_exc = is_next_gen(leaf)
         if auto_exc:
-            exc_args = [_canon(a) for a in inst.args]
+            # "args equals the tuple of the init fields' stored values": element i must be the very object field i
+            # holds NOW (after the last construction step), not a snapshot taken earlier
+            init_names = [f["name"] for f in expected_fields(hspec) if f.get("init", True)]
+            exc_args = []
+            for i, a in enumerate(inst.args):
+                c = _canon(a)
+                if len(inst.args) == len(init_names):
+                    try:
+                        if getattr(inst, init_names[i]) is not a:
+                            c = "not-stored:" + c
+                    except BaseException:  # noqa: BLE001 -- an unreadable field is reported through `values`
+                        pass
+                exc_args.append(c)
     cache = None
     if leaf.get("cache_hash"):
         try:
@@ -976,7 +1147,7 @@ def repair_order(fields_in_order):
 PIPE_KINDS = ["plain", "plain", "plain", "c00", "c10", "c01", "c11"]
 
 
-def gen_field(rng, name, frozen, rich=True, pipes=0.0):
+def gen_field(rng, name, frozen, rich=True, pipes=0.0, dflt_objs=False):
     f = {"name": name,
          "default": rng.choice(["none", "none", "value", "factory", "factory_self"]),
          "init": rng.random() > 0.2,
@@ -993,6 +1164,15 @@ def gen_field(rng, name, frozen, rich=True, pipes=0.0):
         f["converter"] = "pipe"
         f["pipe"] = [rng.choice(PIPE_KINDS) for _ in range(rng.choice([2, 3, 3]))]
         f["pipe_style"] = rng.choice(["list", "list", "pipe"])
+    if f["default"] == "value" and dflt_objs:
+        # the declared default object: a plain string, or an instance of a user subclass of str / int / bytes
+        # (opt-in: consumers with a canonicalisation of their own only know strings)
+        f["dflt_kind"] = rng.choice(["str", "str", "strsub", "intsub", "bytessub"])
+    if f["default"] == "factory":
+        f["factory_style"] = rng.choice(["sugar", "sugar", "Factory"])
+    if rich and rng.random() < 0.15:
+        # factory / converter / validator callables that are callable OBJECTS with unusual special methods
+        f["cb_odd"] = rng.choice(sorted(CB_ODD))
     if f["default"] == "factory_self" and rng.random() < 0.4:
         f["default"] = "decorator"                      # the same field written with `@x.default`
     if f["validators"]:
@@ -1095,10 +1275,66 @@ def gen_sibling(rng, chain, like, k):
     return cs
 
 
-def gen_hspec(rng, depth=None, frozen=None, allow_exc=True, allow_plain=True, history=0.3, pipes=0.0):
+def _cls_hook_alive(chain):
+    """does the last class of `chain` (not frozen) keep a class-level on_setattr hook -- `has_cls_on_setattr` as
+    define.wrap / _ClassBuilder.__init__ compute it (Lean: `clsHookOf`), over ALL its fields, inherited ones included?"""
+    cs = chain[-1]
+    if leaf_frozen({"classes": chain}):
+        return False
+    try:
+        fields = expected_fields({"classes": chain})
+    except Exception:  # noqa: BLE001
+        return False
+    if not fields:
+        return False
+    any_v = any(f.get("validators", 0) for f in fields)
+    any_c = any(f.get("converter") for f in fields)
+    k = cs.get("cls_on_setattr", "unset")
+    if is_next_gen(cs) and k == "unset":
+        return bool(any_v or any_c)
+    return {"hook": True, "pipeCV": True, "validate": bool(any_v), "convert": bool(any_c)}.get(k, False)
+
+
+def _hook_free(cs):
+    if cs["kind"] != "attrs":
+        return True
+    fr = bool(cs.get("frozen")) or cs.get("api") == "frozen"
+    if cs.get("api") == "define" and not fr:
+        return False
+    if cs.get("cls_on_setattr", "unset") not in ("unset", "noop"):
+        return False
+    return all(f.get("on_setattr", "unset") in ("unset", "noop") for f in cs.get("fields", []))
+
+
+def confusing_plain(classes):
+    """indexes of the plain classes that make the chain "slotted confused" (test_slotted_confused; known finding K6 of
+    C06): a plain class below an attrs class that installed a hooking __setattr__ hides that fact from a SLOTTED
+    subclass, which looks at its direct bases only.  A dict class below the plain class finds the marker through the
+    MRO and resets __setattr__; a slotted class whose OWN class-level hook is certainly alive writes its own
+    __setattr__ and its initializer bypasses every hook: those shapes stay in."""
+    out, kept = [], []
+    for i, cs in enumerate(classes):
+        if cs["kind"] == "plain" and not all(_hook_free(k) for k in kept):
+            nxt = next((k for k in classes[i + 1:] if k["kind"] == "attrs"), None)
+            if nxt is None or (leaf_slots(nxt) and not _cls_hook_alive(classes[: classes.index(nxt) + 1])):
+                out.append(i)
+                continue
+        kept.append(cs)
+    return out
+
+
+def drop_confusing_plain(classes):
+    bad = set(confusing_plain(classes))
+    return [cs for i, cs in enumerate(classes) if i not in bad]
+
+
+def gen_hspec(rng, depth=None, frozen=None, allow_exc=True, allow_plain=True, history=0.3, pipes=0.0, post_modes=0.0, dflt_objs=False):
     # a targeted family: hooked attrs class <- plain class <- dict attrs class (the reset of an inherited
     # attrs-made __setattr__ must look through the plain class)
     force_mid = depth is None and frozen is None and allow_plain and rng.random() < 0.08
+    # ... and its slotted counterpart: a converting, hooked base <- plain class <- SLOTTED attrs class whose own
+    # class-level hook is alive (so that it writes its own __setattr__ and its initializer bypasses every hook)
+    mid_slots = bool(force_mid) and rng.random() < 0.45
     depth = 3 if force_mid else (depth or rng.choice([1, 1, 2, 2, 3]))
     any_frozen = False if force_mid else ((rng.random() < 0.35) if frozen is None else frozen)
     exc_base = allow_exc and rng.random() < 0.15
@@ -1133,6 +1369,8 @@ def gen_hspec(rng, depth=None, frozen=None, allow_exc=True, allow_plain=True, hi
               "fields": []}
         if api in ("attr.s", "these", "make_class") and rng.random() < 0.5:
             cs["collect_by_mro"] = True
+        if cs["post"] and post_modes and rng.random() < post_modes:
+            cs["post_mode"] = rng.choice(["swap", "excinit", "both"])      # a post-init hook that touches fields / args
         if not frozen_here:
             cs["cls_on_setattr"] = rng.choice(["unset", "unset", "unset", "noop", "hook", "validate", "convert", "pipeCV"])
         if exc_base:
@@ -1141,10 +1379,18 @@ def gen_hspec(rng, depth=None, frozen=None, allow_exc=True, allow_plain=True, hi
         if force_mid and lvl == 0:
             nf = max(nf, 1)
             cs["cls_on_setattr"] = rng.choice(["hook", "hook", "validate", "convert", "pipeCV"])
+            if mid_slots:
+                cs["cls_on_setattr"] = "unset" if api in ("define", "frozen") and rng.random() < 0.5 else rng.choice(["convert", "pipeCV"])
             if api == "frozen":
                 cs["api"] = api = "define"
                 cs["frozen"] = False
-        if force_mid and is_leaf:
+        if force_mid and is_leaf and mid_slots:
+            cs["slots"] = True if api not in ("define", "frozen") else rng.choice([None, True])
+            if api == "frozen":
+                cs["api"] = api = "define"
+                cs["frozen"] = False
+            cs["cls_on_setattr"] = "unset" if api == "define" and rng.random() < 0.6 else rng.choice(["convert", "pipeCV", "hook"])
+        elif force_mid and is_leaf:
             cs["slots"] = False
             if api == "frozen":
                 cs["api"] = api = "define"
@@ -1164,7 +1410,7 @@ def gen_hspec(rng, depth=None, frozen=None, allow_exc=True, allow_plain=True, hi
             names.append("p")
         annotated = api in ("define", "frozen") and rng.random() < 0.5
         for n in names:
-            f = gen_field(rng, n, frozen_here, pipes=pipes)
+            f = gen_field(rng, n, frozen_here, pipes=pipes, dflt_objs=dflt_objs)
             if annotated:
                 f["annotated"] = True
                 f["type"] = f["type"] or "int"
@@ -1173,6 +1419,13 @@ def gen_hspec(rng, depth=None, frozen=None, allow_exc=True, allow_plain=True, hi
                     f["bare"] = True
             elif api in ("define", "frozen") and f.get("type"):
                 f["annotated"] = False
+            if mid_slots and lvl == 0 and not cs["fields"] and f["converter"] is None:
+                f["converter"] = rng.choice(["plain", "c00", "c10", "c01", "c11"])    # the base converts
+                f.pop("bare", None)
+            if mid_slots and is_leaf and rng.random() < 0.6:
+                f["converter"], f["validators"] = None, 0                             # the leaf's own fields do not
+                for k in ("pipe", "pipe_style", "v_deco", "v_and", "v_shared"):
+                    f.pop(k, None)
             cs["fields"].append(f)
         # hash caching needs a generated hash and a generated init, and no auto_exc exception class
         auto_exc_eff = cs.get("auto_exc") if cs.get("auto_exc") is not None else api in ("define", "frozen")
@@ -1184,28 +1437,7 @@ def gen_hspec(rng, depth=None, frozen=None, allow_exc=True, allow_plain=True, hi
     if classes[-1]["kind"] != "attrs":
         classes[-1] = {"kind": "attrs", "name": "CL", "api": "attr.s", "slots": None, "frozen": False, "kw_only": False,
                        "cache_hash": False, "pre": "none", "post": False, "cls_on_setattr": "unset", "fields": []}
-    # A plain class below an attrs class that installed a hooking __setattr__ hides that fact from a slotted
-    # subclass ("slotted confused", test_slotted_confused; known finding K6 of C06): keep exactly that shape
-    # (hooked attrs class <- plain class(es) <- slotted attrs class) out of the construction properties.
-    def _hook_free(cs):
-        if cs["kind"] != "attrs":
-            return True
-        fr = bool(cs.get("frozen")) or cs.get("api") == "frozen"
-        if cs.get("api") == "define" and not fr:
-            return False
-        if cs.get("cls_on_setattr", "unset") not in ("unset", "noop"):
-            return False
-        return all(f.get("on_setattr", "unset") in ("unset", "noop") for f in cs.get("fields", []))
-    kept = []
-    for i, cs in enumerate(classes):
-        if cs["kind"] == "plain" and not all(_hook_free(k) for k in kept):
-            # only the *slotted* build looks at direct bases only; a dict class below the plain class finds
-            # the marker through the MRO and resets __setattr__, so that shape stays in
-            nxt = next((k for k in classes[i + 1:] if k["kind"] == "attrs"), None)
-            if nxt is None or leaf_slots(nxt):
-                continue
-        kept.append(cs)
-    classes = kept
+    classes = drop_confusing_plain(classes)
     classes[0]["exc_base"] = exc_base
     if exc_base:
         # the exception ancestry need not pass through Exception
